@@ -276,7 +276,8 @@ fn valid_tables(name: &str, seed: u64) -> Option<(usize, bool, Vec<TT>)> {
     let tables: Vec<TT> = if n <= 3 {
         (0..(1u64 << nbits(n))).map(|x| TT::from_u64(n, x)).collect()
     } else if n == 4 {
-        (0..(1u64 << 16)).step_by(5).map(|x| TT::from_u64(n, x)).collect()
+        let step = if std::env::var("LSX_C17_FULL").is_ok() { 1 } else { 5 };
+        (0..(1u64 << 16)).step_by(step).map(|x| TT::from_u64(n, x)).collect()
     } else {
         alpha::family_capped(n, seed, 1, 1200)
     };
@@ -351,11 +352,20 @@ fn valid_digest_of(name: &str, seed: u64) -> Result<u64, (String, String)> {
 }
 
 const VALID_SECTIONS: [&str; 16] = ["n0-D", "n0-S", "n1-D", "n1-S", "n2-D", "n2-S", "n3-D", "n3-S", "n4-D", "n4-S", "n6-D", "n6-S", "n7-D", "n7-S", "n8-D", "n8-S"];
+const VALID_SECTIONS_THOROUGH: [&str; 8] = ["n5-D", "n5-S", "n9-D", "n9-S", "n10-D", "n10-S", "n12-D", "n12-S"];
+
+fn valid_sections(thorough: bool) -> Vec<&'static str> {
+    let mut v: Vec<&'static str> = VALID_SECTIONS.to_vec();
+    if thorough {
+        v.extend(VALID_SECTIONS_THOROUGH);
+    }
+    v
+}
 
 fn valid_part(run: &Run) {
     let prof = run.profile;
     let mut digests = J::obj();
-    for name in VALID_SECTIONS {
+    for name in valid_sections(run.thorough()) {
         let mut result: Option<Result<u64, (String, String)>> = None;
         let holder = std::sync::Mutex::new(&mut result);
         run.section_seq(&format!("VALID workload {} ({} profile): all operations/observers of the C10 alphabet, constructors, iterator carries", name, prof), false, "n<=3 all tables, n=4 every 5th table, n=6..8 the alphabet; digest joined with the other profile", |l| {
@@ -384,7 +394,7 @@ pub fn explore(run: &Run) {
     fn inv<L: Tab>(run: &Run, st: bool, n: usize) {
         invalid_section::<L>(run, st, n)
     }
-    for n in 0..=8usize {
+    for n in 0..=12usize {
         for st in [false, true] {
             for_type!(st, n, inv(run, st, n));
         }
@@ -419,7 +429,7 @@ pub fn run(run: &Run) {
         let mine = run.extra.lock().unwrap().iter().find(|e| e.0 == "valid_digests").map(|e| e.1.clone());
         let theirs = j.get("extra").and_then(|e| e.get("valid_digests")).cloned();
         if let (Some(m), Some(t)) = (mine, theirs) {
-            for name in VALID_SECTIONS {
+            for name in valid_sections(run.thorough()) {
                 let a = m.get(name).and_then(|x| x.as_str()).map(|s| s.to_string());
                 let b = t.get(name).and_then(|x| x.as_str()).map(|s| s.to_string());
                 if let (Some(a), Some(b)) = (a, b) {
